@@ -2,6 +2,7 @@ package main
 
 import (
 	"fmt"
+	"go/token"
 	"go/types"
 	"regexp"
 	"sort"
@@ -23,7 +24,8 @@ func checkC11(c *Ctx) {
 		"C11.nosharedwrite: read-only operations of key, scheme and suite types (Public, Equal, Marshal*, Sign, Verify, Encapsulate*, Decapsulate*, Scheme …) perform no unsynchronised write to memory reachable from their receiver or from package-level variables (necessary for race-free concurrent use; finds memoising accessors)",
 		"C11.noglobalalias: accessors and constructors return no slice or pointer into package-level data or into crypto/elliptic's shared curve parameters",
 		"C11.operands: API operations write none of their non-receiver pointer operands (except declared outputs)",
-		"C11.overwrite: decoders assign every receiver field they define on every accepting path and never read-modify-write old contents")
+		"C11.overwrite: decoders assign every receiver field they define on every accepting path and never read-modify-write old contents",
+		"C11.fresh: a decoder writes through a pointer held in a field of its receiver only after assigning that field itself on every path, so it cannot overwrite an object shared with another value")
 	c.NotDec = append(c.NotDec, "replay equivalence over call histories", "absence of data races in general (only the no-write-on-read-path condition)", "goroutine interleavings")
 
 	mod := p.Mod()
@@ -98,6 +100,7 @@ func checkC11(c *Ctx) {
 	checkC11Alias(c, p)
 	checkC11Operands(c, p)
 	checkC11Overwrite(c, p)
+	checkC11Fresh(c, p)
 }
 
 // sharedSource: v is (derived from) a package-level variable or crypto/elliptic's shared CurveParams.
@@ -420,5 +423,70 @@ func checkC11Overwrite(c *Ctx, p *Program) {
 		} else {
 			c.ok("C11.overwrite", fname(f)+": every decoded field is assigned on every accepting path", fmt.Sprintf("%d field(s)", len(fields)), p.fnPos(f))
 		}
+	}
+}
+
+var c11DecoderName = regexp.MustCompile(`^(Unmarshal|Unpack|Import|SetBytes|FromBytes)`)
+
+// checkC11Fresh: a decoder writes through a pointer stored in a field of its receiver only after it
+// has assigned that field itself (on every path): otherwise the write lands in an object that may be
+// shared with other values (e.g. the expanded public key a private key keeps a pointer to).
+func checkC11Fresh(c *Ctx, p *Program) {
+	n := 0
+	var fs []*ssa.Function
+	for f := range p.AllFuncs {
+		if f.Blocks != nil && isCirclFunc(f) && f.Signature.Recv() != nil && c11DecoderName.MatchString(f.Name()) && len(f.Params) > 0 && f.Synthetic == "" {
+			fs = append(fs, f)
+		}
+	}
+	sort.Slice(fs, func(i, j int) bool { return fs[i].String() < fs[j].String() })
+	for _, f := range fs {
+		lc := newLenCtx(p, f)
+		for _, b := range f.Blocks {
+			for _, in := range b.Instrs {
+				ci, ok := in.(ssa.CallInstruction)
+				if !ok {
+					continue
+				}
+				cc := ci.Common()
+				cal := cc.StaticCallee()
+				if cal == nil || !inlinable(cal) {
+					continue
+				}
+				for i, a := range cc.Args {
+					ld, ok := a.(*ssa.UnOp)
+					if !ok || ld.Op != token.MUL {
+						continue
+					}
+					fa, ok := ld.X.(*ssa.FieldAddr)
+					if !ok || paramRoot(f, fa.X) != 0 {
+						continue
+					}
+					if _, isPtr := ld.Type().Underlying().(*types.Pointer); !isPtr {
+						continue
+					}
+					writes := false
+					for _, w := range p.Mod().of(cal) {
+						if w.Root == fmt.Sprintf("param#%d", i) {
+							writes = true
+						}
+					}
+					if !writes {
+						continue
+					}
+					n++
+					construct := fmt.Sprintf("%s: %s writes through %s", fname(f), fname(cal), descVal(a))
+					if lc.forwarded(ld) != nil {
+						c.ok("C11.fresh", construct, "the field is assigned by this decoder on every path before the write", p.pos(in.Pos()))
+					} else {
+						c.bad("C11.fresh", construct, "the pointer was not (unconditionally) assigned by this decoder: the write may land in an object shared with another value", p.pos(in.Pos()))
+					}
+				}
+			}
+		}
+	}
+	c.count("decoder_pointer_writes", n)
+	if n < 25 {
+		c.undecided("C11.fresh", "decoders writing through receiver pointer fields", fmt.Sprintf("only %d sites found (floor 25)", n), "")
 	}
 }
